@@ -89,7 +89,7 @@ func c03Engine() *liquid.Engine {
 	e := liquid.NewEngine()
 	e.RegisterFilter("failing", func(v any) (any, error) { return nil, errors.New("failing filter") })
 	if _, err := e.ParseTemplateAndCache([]byte("{% assign x = 'inc' %}{{ x }}{{ a | sort | join }}{% for i in a %}{% cycle '1', '2' %}{% endfor %}"), c03IncName, 1); err != nil {
-		panic("harness: " + err.Error())
+		panic(explore.BaselineFailure{Msg: "harness: " + err.Error()})
 	}
 	return e
 }
@@ -130,7 +130,7 @@ func c03NewWorld(nB int, ts []int) *c03World {
 		}
 		tpl, err := w.eng.ParseString(c03Templates[t])
 		if err != nil {
-			panic("harness: " + err.Error())
+			panic(explore.BaselineFailure{Msg: "harness: " + err.Error()})
 		}
 		w.tpls[t] = tpl
 		w.tsnap[t] = explore.SnapshotHash(tpl.GetRoot())
